@@ -397,7 +397,7 @@ def medium_models():
 # ------------------------------------------------------------------------------------------ harness glue
 def shards(tier, seed):
     n = 14 if tier == 'quick' else 44
-    return [('tiny',), ('medium',)] + [('hyp', k) for k in range(n)]
+    return [('tiny',), ('medium',), ('large',)] + [('hyp', k) for k in range(n)]
 
 
 def run_shard(ctx, shard):
@@ -409,6 +409,18 @@ def run_shard(ctx, shard):
     if shard[0] == 'medium':
         for df in medium_models():
             check_file(ctx, df, [7 ** k for k in range(3, 40)])
+        return
+    if shard[0] == 'large':
+        # sections with several thousand items (a parser may treat big sections differently): 4200+ strings and types,
+        # 4100+ fields and methods
+        C, F, M, Code = g.Class, g.Field, g.Method, g.Code
+        refs = [('s', 'str%05d' % i) for i in range(4200)] + [('t', 'Lp/T%04d;' % i) for i in range(4150)]
+        refs += [('f', 'Lp/T0000;', 'f%04d' % i, 'I') for i in range(4100)]
+        refs += [('m', 'Lp/T0001;', 'm%04d' % i, 'V', ()) for i in range(4100)]
+        df = g.DexFile([C('Lp/Big;', 0x1, 'Ljava/lang/Object;', [], 'Big.java', sfields=[F('s', 'I', 0x9)],
+                          vmethods=[M('run', 'V', (), 0x1, Code(1, 1, 0, bytes.fromhex('0e00')))],
+                          static_values=[g.EV('int', 7)])], extra_refs=refs)
+        check_file(ctx, df, [11 ** k for k in range(3, 12 if ctx.tier == 'quick' else 40)])
         return
     models = ds.dex_models(max_classes=4, max_fields=3, max_methods=3, static_values=True, annotations=True, tries=True,
                            versions=('035', '038', '039'))
